@@ -18,7 +18,7 @@ META = {
             "deleted nodes), every spec-enabled call applied to every reachable concrete state; after each call the "
             "result, the in-order contents and the AVL invariants are compared with the spec. Long seeded histories on "
             "64 values are recorded from the real code and accepted or rejected by TLC (trace validation).",
-    "note": "Small scope for the exhaustive part: 8 values/1 iterator and 4 values/2 iterators (quick), 10 values/1 "
+    "note": "Small scope for the exhaustive part: 8 values/1 iterator and 4 values/2 iterators (quick), 9 values/1 "
             "iterator and 6 values/2 iterators (thorough), 3 tokens x 2 values for the token level (trees of 12+ nodes, "
             "where a deletion rotates at two levels, are only reached by the random histories). Iterator semantics is the deterministic rule of DESIGN.md A.2 "
             "(least element of the current set beyond the last one returned), which implies the statement. Trusted: "
@@ -305,7 +305,7 @@ def run(ctx):
     # ---- binding A: product exploration
     plan = [("TreeSet.cfg", "k8i1", 110), ("TreeSetTokens.cfg", "tokens", 110), ("TreeSetTwoIt.cfg", "k4i2", 110)]
     if not ctx.quick:
-        plan += [("TreeSetTwoItBig.cfg", "k6i2", 800), ("TreeSetBig.cfg", "k10i1", 800)]
+        plan += [("TreeSetTwoItBig.cfg", "k6i2", 800), ("TreeSetBig.cfg", "k9i1", 800)]
     total_states = 0
     for cfg, label, tmo in plan:
         v = product(ctx, binary, cfg, "product-" + label, tmo)
